@@ -5,6 +5,11 @@ VERIF = os.path.dirname(os.path.dirname(os.path.abspath(__file__)))
 
 # id -> (category, technique, level text, level note, design ref)
 CHECKS = {
+ "C18": ("exploration",
+         "runtime monitoring: conformance monitor - grammar-generated A2ML definitions with instances that conform or deviate by construction; validity flag, token conservation with integer notation, and ifdata_cleanup() observed per IF_DATA block",
+         "For each generated A2ML definition (named / anonymous / referenced types, the 10 scalar types, arrays, char[n] strings, enums with and without values, repeated tagged items, inner repetitions, blocks, tags without content, depth <= 4) ten conforming instances and five single-token deviations (wrong token kind, unknown tag, unknown enum item, surplus token, integer out of range) are placed in IF_DATA blocks at all eleven sites of the grammar; the definition is supplied in the file, as built-in argument, both (equal) or both (conflicting, either one applying). Conforming blocks must be flagged valid (strict and non-strict), deviations must load and be flagged invalid, the written text must contain exactly the input tokens with their hex/decimal notation, and ifdata_cleanup() must remove exactly the invalid blocks. 300 / 20 000 definitions x 15 blocks x 2 modes.",
+         "trusts: conformance by construction (globally unique tags and enum items, delimited repetitions); not judged: duplicate non-repeating tagged items, strings longer than char[n], empty IF_DATA",
+         "DESIGN.md section 3 C18"),
  "C16": ("fault_enumeration",
          "runtime monitoring: include-transparency monitor (model of the file tree vs model of the textually flattened document), write/reload and merge_includes monitors, plus an enumerated list of include faults judged by error class",
          "Generated documents are split at element boundaries into a main file and include files in a fresh directory tree (1-3 levels, sub-directories, quoted and unquoted names, / and \\ separators, directives inside nested blocks, inside IF_DATA payloads and inside the A2ML block). load(main) must equal load_from_string of the text with every directive replaced by the file content; the file written next to main must reload to an equal model and keep the directives of the main file; after merge_includes() the output must contain no /include and load to an equal model. The fault list (missing file, directory instead of file, empty file, self inclusion, mutual inclusion, missing nested file, directive without file name) must end in an error that names the directive, never in a panic, abort or partial result. 800 / 20 000 trees + 60 / 400 fault cases.",
